@@ -444,6 +444,9 @@ class Zone {
  public:
   TZif f;
   Posix px;
+  // type in effect before the first recorded transition: type 0 (RFC 9636). For old-style files whose type 0 is a
+  // daylight type in use, readers follow a convention instead; a monitor may set this after asking the library once.
+  size_t before_first = 0;
   bool has_px = false;    // footer present, non-empty and parsed
   bool px_rules = false;  // footer generates transitions (dst, non-empty dst abbr, not all-year)
   bool px_allyear = false;
@@ -513,7 +516,7 @@ class Zone {
 
   Info at(i128 t) const {
     if (f.times.empty()) return has_px ? px_at(t) : type_info(0);
-    if (t < f.times.front()) return type_info(0);
+    if (t < f.times.front()) return type_info(before_first);
     if (t >= f.times.back()) {
       if (has_px) return px_at(t);
       return type_info(f.idx.back());
